@@ -499,12 +499,23 @@ func (m *model) expect(op Op, arrivalScopeLocal bool) expectation {
 			return bad("unknown-strategy")
 		}
 		canonical := strategyPrefix + "/" + sname + "/v=1"
+		nonMinimal := false
 		if len(sc) > len(pc)+1 {
-			if sc[len(pc)+1] != "v=1" {
+			switch sc[len(pc)+1] {
+			case "v=1":
+			case "54=%00%01", "54=%00%00%00%01":
+				// version 1 written with more bytes than needed: refusing it is fine, and so is
+				// accepting it as version 1 -- the choice then in force must be the registered
+				// strategy (dataset, echo and the probe below judge that)
+				nonMinimal = true
+			default:
 				return bad("unknown-or-malformed-strategy-version")
 			}
 		}
 		ok(mv)
+		if nonMinimal {
+			either("strategy-version-in-non-minimal-encoding")
+		}
 		if len(sc) > len(pc)+2 {
 			// NFD treats further components as strategy parameters, which a strategy may refuse
 			either("strategy-name-with-parameters")
